@@ -193,7 +193,11 @@ def copy_ctor(ck):
             context_init(ck, cc, e, src, fields)
         else:
             ok = is_field(e, LM + "::" + fld) and is_ref_to(skip_copies(e).get("base"), src)
-            ck.ob("C03-O1", sitestr(cc, e), ok, "%s <- source.%s" % (fld, fld) if ok else "%s is initialised from %s, not from the source's %s" % (fld, describe(e), fld), key="LogMessage(copy)|source|%s" % fld)
+            # a member of class type built from the source by its own constructor (a struct that groups the owned strings): how it copies is that
+            # constructor's business - not decided here, and not a violation
+            from_src = not ok and e.get("k") == "construct" and any(x.get("k") == "ref" and x.get("decl") == src for x in walk(e)) and \
+                (e.get("class") or "") not in ("QString", "QByteArray", "QDateTime", "QHash", "QVariantHash")
+            ck.ob("C03-O1", sitestr(cc, e), True if ok else (None if from_src else False), "%s <- source.%s" % (fld, fld) if ok else "%s is initialised from %s, not from the source's %s" % (fld, describe(e), fld), key="LogMessage(copy)|source|%s" % fld)
     for m in rec["methods"]:
         if m["kind"] in ("movector", "copyassign", "moveassign") and m.get("userProvided"):
             ck.ob("C03-O1", "logmessage.h (%s)" % m["sig"], None, "user-provided %s is not analysed" % m["kind"])
@@ -226,7 +230,12 @@ def context_init(ck, cc, e, src, fields):
             ck.ob("C03-O1", sitestr(cc, a[idx]), False, "the copy's %s pointer is the source's pointer: it dangles as soon as the caller's buffer is freed" % what, key="LogMessage(copy)|dangling|%s" % what)
             continue
         if own not in fields:
-            ck.ob("C03-O1", sitestr(cc, a[idx]), False, "the copy has no owned buffer for %s (member %s is gone) and its pointer is %s" % (what, own, describe(vals[True])), key="LogMessage(copy)|rehome|%s" % what)
+            # the owned buffer may live elsewhere in the object (a member struct held by value): a pointer into a QByteArray that is part of *this* is re-homed
+            lf_ = skip_copies(vals[True]) if isinstance(vals[True], dict) else None
+            inside = isinstance(lf_, dict) and is_call(lf_, ("QByteArray::constData", "QByteArray::data")) and isinstance(lf_.get("obj"), dict) and \
+                skip_copies(lf_["obj"]).get("k") == "member" and is_this_field(skip_copies(lf_["obj"]), strip_tmpl(skip_copies(lf_["obj"]).get("name") or ""))
+            ck.ob("C03-O1", sitestr(cc, a[idx]), None if inside else False, "the copy's %s points into %s, a buffer inside the copy that this rule does not follow to its initialiser" % (what, describe(lf_.get("obj"))[:40]) if inside else
+                  "the copy has no owned buffer for %s (member %s is gone) and its pointer is %s" % (what, own, describe(vals[True])), key="LogMessage(copy)|rehome|%s" % what)
             continue
         ok1 = own_ok(vals[True])
         ck.ob("C03-O1", sitestr(cc, a[idx]), ok1, "%s points into the copy's own %s" % (what, own) if ok1 else "with a non-null source the copy's %s is %s" % (what, describe(vals[True])), key="LogMessage(copy)|rehome|%s" % what)
